@@ -34,8 +34,10 @@ tvars == <<l, cfg, batch, plc, tg, viol, ntr, nadm, done>>
 
 Trace == ndJsonDeserialize(IOEnv.TRACE)
 Ev == Trace[l]
-V(guard, sig) == [line |-> l, guard |-> guard, sig |-> sig]
+VI(guard, sig, info) == [line |-> l, guard |-> guard, sig |-> sig, info |-> info]
+V(guard, sig) == VI(guard, sig, "-")
 Chk(ok, guard, sig) == IF ok THEN <<>> ELSE <<V(guard, sig)>>
+ChkI(ok, guard, sig, info) == IF ok THEN <<>> ELSE <<VI(guard, sig, info)>>
 
 RECURSIVE Flat(_)
 Flat(ss) == IF ss = <<>> THEN <<>> ELSE Head(ss) \o Flat(Tail(ss))
@@ -60,27 +62,33 @@ ULogged(ev, s) == UNION {DOMAIN g.domains : g \in {h \in Range(ev.topo) : h.type
 \* the code's own count of the domain of the owned spread groups on this key (after the commit), for the drift note
 CodeCounts(ev, s, d) == {g.domains[d] : g \in {h \in Range(ev.topo) : h.type = "topology spread" /\ ~h.inverse /\ h.owned /\ h.key = s.key
                                                                         /\ h.maxSkew = s.maxSkew /\ d \in DOMAIN h.domains}}
+GroupOwners(ev, s) == UNION {Range(h.owners) : h \in {g \in Range(ev.topo) : g.type = "topology spread" /\ ~g.inverse /\ g.owned /\ g.key = s.key /\ g.maxSkew = s.maxSkew}}
+GroupMinDomains(ev, s) == {h.minDomains : h \in {g \in Range(ev.topo) : g.type = "topology spread" /\ ~g.inverse /\ g.owned /\ g.key = s.key /\ g.maxSkew = s.maxSkew}}
+\* the admitted pod object had its node filter (required terms / tolerations) changed by relaxation earlier in this pass
+RelaxedSig(ev, p) == IF ev.eff # <<>> /\ (ev.eff[1].tol # p.tol \/ ev.eff[1].terms # p.terms) THEN ":relaxed-node-filter" ELSE ""
 AdmissionChecks(ev) ==
     LET p == PodByKey(cfg, ev.pod)
         x == TargetOf(ev)
         tg2 == [id \in DOMAIN tg \cup {x.id} |-> IF id = x.id THEN x ELSE tg[id]]
         W == [cfg |-> cfg, batch |-> batch, plc |-> plc, tg |-> tg2]
-        U(s) == ULogged(ev, s) \cup ULow(Strict, W, p, s)
-    IN Flat([i \in DOMAIN p.aff |-> Chk(AffTermOK(Strict, W, p, x, p.aff[i]), "G_C02_Affinity", SigAff(Strict, W, p, x, p.aff[i]))])
+        U(s) == ULogged(ev, s)
+    IN Flat([i \in DOMAIN p.aff |-> ChkI(AffTermOK(Strict, W, p, x, p.aff[i]), "G_C02_Affinity", SigAff(Strict, W, p, x, p.aff[i], ev.eff),
+                                      ToString([pod |-> ev.pod, term |-> i, parts |-> AffParts(Strict, W, p, x, p.aff[i])]))])
        \o Flat([i \in DOMAIN p.spread |->
                IF p.spread[i].when # "DoNotSchedule" THEN <<>>
                ELSE LET s == p.spread[i]
                         a == SpreadParts(Strict, W, p, x, s, U(s))
-                    IN Chk(a.ok, "G_C02_Spread", SigSpread(Strict, W, p, x, s, U(s)))
+                    IN ChkI(a.ok, "G_C02_Spread", SigSpread(Strict, W, p, x, s, U(s), SpreadCause(Strict, W, p, x, s, U(s), ev.eff, GroupMinDomains(ev, s), GroupOwners(ev, s))), ToString([pod |-> ev.pod, cnt |-> a.cnt, self |-> a.self, min |-> a.min, hi |-> a.hi, skew |-> s.maxSkew]))
                        \o (IF ~a.ok \/ Cardinality(a.dx) # 1 THEN <<>>
                            ELSE LET d == CHOOSE e \in a.dx : TRUE
                                     cc == CodeCounts(ev, s, d)
-                                IN Chk(\A c \in cc : a.cnt[d] + a.self <= c /\ c <= a.hi[d] + a.self, "Note_C02_Counts", "spread:" \o s.key))])
+                                IN ChkI(\A c \in cc : a.cnt[d] + a.self <= c /\ c <= a.hi[d] + a.self, "Note_C02_Counts", "spread:" \o s.key,
+                                        ToString([pod |-> ev.pod, d |-> d, code |-> cc, lo |-> a.cnt[d] + a.self, hi |-> a.hi[d] + a.self])))])
 TSched ==
     /\ Ev.e = "Sched"
     /\ IF Mode = "hook" /\ Ev.kind \in {"commit", "open"} /\ KnownPod(cfg, Ev.pod)
        THEN /\ viol' = viol \o AdmissionChecks(Ev)
-            /\ plc' = Append(plc, [pod |-> Ev.pod, tid |-> TargetOf(Ev).id])
+            /\ plc' = Append(plc, [pod |-> Ev.pod, tid |-> TargetOf(Ev).id, at |-> TargetOf(Ev)])
             /\ tg' = (LET x == TargetOf(Ev) IN [id \in DOMAIN tg \cup {x.id} |-> IF id = x.id THEN x ELSE tg[id]])
             /\ nadm' = nadm + 1
        ELSE UNCHANGED <<viol, plc, tg, nadm>>
@@ -107,11 +115,11 @@ AntiChecks(W) ==
                       ELSE <<V("G_C02_Anti", SigAnti(W, owner, Loc(W, owner), <<c[2], c[3]>>))>>
                    : c \in EndAntiConf(Strict, W)}))
 EndChecks(W) ==
-    LET Uof(q, s) == ULow(Strict, Without(W, q), q, s) IN
+    LET Uof(q, s) == {} IN
     Flat(SetToSeq({<<V("Inv_C02_EndState", "end:" \o SigAff(Strict, Without(W, PodByKey(cfg, b[1])), PodByKey(cfg, b[1]), Loc(W, PodByKey(cfg, b[1])),
-                                                              PodByKey(cfg, b[1]).aff[b[2]]))>> : b \in EndAffBad(Strict, W)}))
+                                                              PodByKey(cfg, b[1]).aff[b[2]], <<>>))>> : b \in EndAffBad(Strict, W)}))
     \o Flat(SetToSeq({LET p == PodByKey(cfg, b[1]) s == p.spread[b[2]] IN
-                      <<V("Inv_C02_EndState", "end:" \o SigSpread(Strict, Without(W, p), p, Loc(W, p), s, Uof(p, s)))>> : b \in EndSpreadBad(Strict, W, Uof)}))
+                      <<V("Inv_C02_EndState", "end:" \o SigSpread(Strict, Without(W, p), p, Loc(W, p), s, Uof(p, s), ""))>> : b \in EndSpreadBad(Strict, W, Uof)}))
 TResults ==
     /\ Ev.e = "Results"
     /\ LET W == ResultsWorld(Ev)
